@@ -74,11 +74,14 @@ func (x *Exec) libraryModel(st *State, call *ast.CallExpr, c *callee, recv *T, a
 		return T{}, true
 	case "bytes.Equal":
 		x.d.declareFun("bytes_equal", []string{"(Slc Int)", "(Slc Int)"}, "Bool")
-		x.addUnitFact("(forall ((a (Slc Int))) (bytes_equal a a))")
-		x.addUnitFact("(forall ((a (Slc Int)) (b (Slc Int))) (! (=> (bytes_equal a b) (and (= (slc-len a) (slc-len b)) (= (bytes2str a) (bytes2str b)))) :pattern ((bytes_equal a b))))")
-		x.addUnitFact("(forall ((a (Slc Int)) (b (Slc Int))) (! (=> (= (bytes2str a) (bytes2str b)) (bytes_equal a b)) :pattern ((bytes_equal a b))))")
-		x.trust("bytes.Equal(a,b) <=> string(a)==string(b) (content equality via the uninterpreted bytes2str view)")
-		return mkBool(app("bytes_equal", args[0].S, args[1].S)), true
+		// content equality as an uninterpreted relation; only the instances needed
+		// at this call are stated (quantified axioms over slice values make the
+		// array theory incomplete for the solvers)
+		be := app("bytes_equal", args[0].S, args[1].S)
+		st.assume(implies(eq(args[0].S, args[1].S), be))
+		st.assume(implies(be, eq(slcLen(args[0].S), slcLen(args[1].S))))
+		x.trust("bytes.Equal is content equality (uninterpreted relation; identical slices are equal, equal slices have equal length)")
+		return mkBool(be), true
 	case "math/big.NewInt":
 		r := x.alloc(st, "big")
 		x.setBig(st, r, args[0].S)
